@@ -91,6 +91,13 @@ def _split(args):
         return name, [[]], traceback.format_exc()
 
 
+def load_baseline():
+    path = os.path.join(VERIF, 'baseline_obligations.json')
+    if os.path.exists(path):
+        return json.load(open(path))
+    return None
+
+
 def load_known():
     path = os.path.join(VERIF, 'known_findings.jsonl')
     out = []
@@ -215,6 +222,8 @@ def aggregate(prop, tier, seed, contracts, results, split_errors, known, t_start
     for name, it in failures:
         grouped.setdefault((name, it['oid'].split('#')[0]), []).append(it)
     rng = random.Random(seed)
+    baseline = load_baseline()
+    unproved_names = {u['contract'] for u in unproved}
     for (name, oid), its in sorted(grouped.items()):
         ci = REGISTRY[name]
         kind, label = oid.split(':', 1)
@@ -236,6 +245,15 @@ def aggregate(prop, tier, seed, contracts, results, split_errors, known, t_start
             if w is not None:
                 w['solver'] = tried[0]['solver'] if tried else {}
                 confirmed = w
+        if confirmed is None:
+            if name in unproved_names:
+                # the function is (partly) outside the subset: its bounded stand-in decides, an unconfirmed abstract
+                # counter-model of another path is not a verdict
+                continue
+            if baseline is not None and f'{prop}/{name}/{oid}' not in baseline.get(prop, []):
+                # never discharged on the pinned tree either: an engine limitation, not a regression (DESIGN 5.2)
+                undecided.append((name, dict(its[0], by_backend={'note': 'fails without a concrete input and is not in baseline_obligations.json'})))
+                continue
         rec = confirmed or (tried[0] if tried else {'contract': name, 'obligation': oid})
         rec['property'] = prop
         rec['failed_obligation'] = f'{prop}/{name}/{oid}'
@@ -290,5 +308,8 @@ def aggregate(prop, tier, seed, contracts, results, split_errors, known, t_start
         'property_id': prop, 'tier': tier, 'seed': seed, 'level': level, 'coverage': coverage,
         'assumptions': S_ASSUMPTIONS + trusted, 'wall_s': round(wall, 2), 'violations': len(violations),
     }
-    return dict(evidence=evidence, violations=violations, known_lines=known_lines, undecided=undecided, crashes=crashes,
+    discharged_ids = sorted({f"{prop}/{ci.name}/{it['oid'].split('#')[0]}" for ci in contracts for it in per[ci.name]['items']
+                             if it['verdict'] == it['expect']}
+                            - {f"{prop}/{n}/{it['oid'].split('#')[0]}" for n, it in failures})
+    return dict(discharged_ids=discharged_ids, evidence=evidence, violations=violations, known_lines=known_lines, undecided=undecided, crashes=crashes,
                 unproved=unproved, per=per)
